@@ -272,6 +272,81 @@ def h6(led, rid, ctx):
     led.floor(rid, "profiles built from a running usage", n, 1)
 
 
+def h7(led, rid, ctx):
+    """GUARD-TIGHT: a profile interval [start, end] is built exactly when it is non-empty — the guard
+    that compares the two quantities its ends are computed from is equivalent to start <= end
+    (decided on a 7-value window; all such guards on the pinned tree are)"""
+    import itertools
+    from ..predalg import ev, Unknown
+    lib = ctx.lib
+
+    def leaves(e, acc):
+        e = peel(e, calls=None)
+        if e.k == "binop" and e.a in ("Add", "Sub"):
+            leaves(e.b, acc)
+            leaves(e.c, acc)
+        elif e.k == "cast":
+            leaves(e.b, acc)
+        elif e.k == "call" and e.a.name in ("max", "min") and len(e.b) == 2:
+            leaves(e.b[0], acc)
+            leaves(e.b[1], acc)
+        elif e.k != "const":
+            acc.add(show(e))
+        return acc
+    OPS = {"Lt": lambda a, b: a < b, "Le": lambda a, b: a <= b, "Gt": lambda a, b: a > b, "Ge": lambda a, b: a >= b}
+    n = 0
+    for f in lib.fns.values():
+        if "/cumulative/" not in f.file or "/tests" in f.file:
+            continue
+        R = None
+        for bb, i, st in aggregates(f, "ResourceProfile"):
+            R = R or resolver(f)
+            e = R.rvalue(st["rv"])
+            d = dict(zip(e.d or [], e.c))
+            if "start" not in d or "end" not in d:
+                continue
+            S, E_ = d["start"], d["end"]
+            ls, le = leaves(S, set()), leaves(E_, set())
+            if ls == le or not ls or not le:
+                continue
+            for g in guards_of(f, bb):
+                rf = rel_fact(g)
+                if not rf or rf[0] not in OPS:
+                    continue
+                gl = leaves(rf[1], set()) | leaves(rf[2], set())
+                if not (gl and gl <= (ls | le) and (gl & ls) and (gl & le)):
+                    continue
+                names = sorted(ls | le)
+                n += 1
+                bad = None
+                for vals in itertools.product(range(-3, 4), repeat=len(names)):
+                    env = dict(zip(names, vals))
+
+                    def leaf(x):
+                        x = peel(x, calls=None)
+                        if x.k == "call" and x.a.name in ("max", "min") and len(x.b) == 2:
+                            a_, b_ = ev(x.b[0], leaf), ev(x.b[1], leaf)
+                            return max(a_, b_) if x.a.name == "max" else min(a_, b_)
+                        return env.get(show(x))
+                    try:
+                        gv = OPS[rf[0]](ev(rf[1], leaf), ev(rf[2], leaf))
+                        s_, e_ = ev(S, leaf), ev(E_, leaf)
+                    except Unknown:
+                        bad = "cannot be evaluated"
+                        break
+                    if gv != (s_ <= e_):
+                        bad = ("is %s for %s although the interval [%d, %d] is %s"
+                               % ("true" if gv else "false", env, s_, e_, "empty" if s_ > e_ else "not empty"))
+                        break
+                led.check(bad is None, rid, "%s:interval-guard@%s" % (f.name, show(S)[-22:]), "%s:%d" % (f.file, f.blocks[bb]["line"]),
+                          "guard ⇔ start <= end",
+                          "%s builds the profile [%s, %s] under the test `%s %s %s`, which %s: a non-empty part of "
+                          "the time-table is not created (the table under-counts there and overloads are "
+                          "accepted) or an empty profile is stored"
+                          % (f.name, show(S)[:40], show(E_)[:40], show(rf[1])[:40], rf[0], show(rf[2])[:40], bad))
+    led.floor(rid, "interval guards", n, 5)
+
+
 def h12(led, rid, ctx):
     """handler ⇔ registration for the cumulative propagators (instance of C01-S5)"""
     from .C01 import s5_propagator_events
@@ -286,3 +361,4 @@ def run(ctx, led):
     run_rule(led, "H1/H2", "backtrack handler ⇔ backtrack registration for the cumulative "
              "propagators; the non-incremental path rebuilds (shared with C01-S5)", h12, ctx)
     run_rule(led, "H6", "no update of the running usage reaches the construction of a profile without a capacity comparison", h6, ctx)
+    run_rule(led, "H7", "GUARD-TIGHT: profile intervals are built exactly when non-empty", h7, ctx)
